@@ -274,6 +274,8 @@ class Visitor:
 
         # Handle base classes.
         bases = [safe_get_base_class(base, parent=self.current) for base in node.bases]
+        # Unsupported expressions come back as `None`: they cannot be stored as bases.
+        bases = [base for base in bases if base is not None]
 
         class_ = Class(
             name=node.name,
